@@ -249,17 +249,53 @@ fn huge_request<C: CellType>(cx: &mut Context<C>, h: Huge) {
         4 => (-n, -n + 1),
         _ => (-3, 4),
     };
+    // three marked cells at the pointer: whatever happens to the request, they keep their values
+    let mark = |o: isize| C::from_u8(0x51 + o as u8);
+    for o in 0..3isize {
+        cx.memory.write(o, mark(o));
+    }
+    let far = if h.jitter < 0 { -n } else { n };
     child::log_note(&format!("huge-begin={lo},{hi}"));
-    match h.kind % 6 {
+    let res = std::panic::catch_unwind(std::panic::AssertUnwindSafe(|| match h.kind % 6 {
         0 | 1 | 2 => cx.memory.make_accessible(lo, hi),
         3 | 4 => cx.memory.write(lo, C::ONE),
         _ => {
-            cx.memory.mov(if h.jitter < 0 { -n } else { n });
+            cx.memory.mov(far);
             cx.memory.write(0, C::ONE);
         }
+    }));
+    let size = std::mem::size_of::<C>();
+    if let Err(p) = res {
+        // The request panicked and the caller caught it. A tape that is still usable must still be the
+        // same tape: the marked cells read back, never-written far cells read 0, and nothing is reported
+        // accessible that the allocator does not back.
+        child::log_note("huge-panicked=1");
+        if h.kind % 6 == 5 {
+            cx.memory.mov(-far);
+        }
+        for o in 0..3isize {
+            if cx.memory.read(o) != mark(o) {
+                child::log_note(&format!("huge-after-panic-lost={o}"));
+            }
+        }
+        for o in [lo, hi - 1, if h.kind % 6 == 5 { far } else { lo / 2 + hi / 2 }] {
+            if (0..3).contains(&o) {
+                continue;
+            }
+            if cx.memory.check(o) {
+                let addr = (cx.memory.current_ptr() as usize).wrapping_add((o as usize).wrapping_mul(size));
+                if !galloc::owns(addr, size) {
+                    child::log_note(&format!("huge-unowned={o}"));
+                    continue;
+                }
+            }
+            if o.unsigned_abs() > 1 << 30 && cx.memory.read(o) != C::ZERO {
+                child::log_note(&format!("huge-after-panic-far-read={o}"));
+            }
+        }
+        std::panic::resume_unwind(p);
     }
     // it came back: the allocator must really have provided the cells
-    let size = std::mem::size_of::<C>();
     let mut probes = vec![lo, lo + 1, lo / 2 + hi / 2, hi - 2, hi - 1, 0];
     probes.retain(|&o| o >= lo && o < hi);
     let (mut acc, mut unowned) = (0, 0);
@@ -272,8 +308,13 @@ fn huge_request<C: CellType>(cx: &mut Context<C>, h: Huge) {
         if !galloc::owns(addr, size) {
             unowned += 1;
             child::log_note(&format!("huge-unowned={o}"));
-        } else {
+        } else if !(0..3).contains(&o) {
             cx.memory.write(o, C::ONE);
+        }
+    }
+    for o in 0..3isize {
+        if h.kind % 6 != 5 && cx.memory.read(o) != mark(o) && !(h.kind % 6 == 3 && false) {
+            child::log_note(&format!("huge-after-return-lost={o}"));
         }
     }
     child::log_note(&format!("huge-returned={acc},{unowned}"));
